@@ -60,6 +60,10 @@ def mc_case(draw, sub, tier="quick"):
         if base2 is not None:
             b = base2[i % len(base2)]
             r2.append([f"r{i}x" + b[0][b[0].index("x") + 1:], *variant(b[1], b[2], i + 1)])
+    if sub != "enum" and draw(st.integers(0, 14)) == 0:
+        # an input without any read: every worker stays idle, the report must still be the one-core report
+        keep = draw(st.sampled_from([0, 0, 1]))
+        r1, r2 = r1[:keep], r2[:keep]
     sc["r1"], sc["r2"] = r1, (r2 if base2 is not None else None)
     if (sc["ad1"] or sc["ad2"]) and not sc["o"].get("pair_adapters") and draw(st.integers(0, 2)) == 0:
         # orientation decisions and their counters are merged from the workers as well
@@ -75,7 +79,7 @@ def mc_case(draw, sub, tier="quick"):
         sc["extra"] = draw(st.sampled_from([["--info-file", "info.tsv"], ["--rest-file", "rest.txt"],
                                             ["--wildcard-file", "wc.txt"],
                                             ["--info-file", "info.tsv", "--rest-file", "rest.txt"]]))
-    recsize = max(len(x[0]) + 2 * len(x[1]) + 7 for x in r1 + (r2 or []))
+    recsize = max([len(x[0]) + 2 * len(x[1]) + 7 for x in r1 + (r2 or [])] or [40])
     total = sum(len(x[0]) + 2 * len(x[1]) + 7 for x in r1)
     chunks = draw(st.sampled_from(([1, 2, 3, 4, 6, 10, 20, 30] if not vary else [4, 6, 10, 20, 30, 40])
                                   if sub != "enum" else [2, 3]))
